@@ -521,7 +521,11 @@ class OscScore():
         # needs to undo the check of _get_timetag and _get_logical_time.
         # Those methods and this one would need refactoring all at once.
         if _libsc3.main.current_tt is _libsc3.main.main_tt:
-            tailtime += _libsc3.main.current_tt._seconds
+            # The marker closes the score: not before the latest bundle.
+            end_time = _libsc3.main.current_tt._seconds
+            if not self._scoreq.empty():
+                end_time = max(end_time, self._scoreq.peek(False)[1].bndl[0])
+            tailtime += end_time
         self.add([tailtime, ['/c_set', 0, 0]])  # Dummy cmd.
         for _, entry in self._scoreq:
             self._lst_score.append(entry.bndl)
